@@ -448,8 +448,21 @@ def rule_verdict(ctx, repo):
 def rule_linear(ctx, repo):
     g = F.method(repo, "PFlow", "nr_step", PFLOW)
     fn = g.fn
-    e = Q.first("self.res[:$s.dae.n] = -$s.dae.f[:]", fn)[1]
-    ok = e is not None and Q.has("self.res[$s.dae.n:] = -$s.dae.g[:]", fn, e)
+    # rhs = [-f; -g] split at dae.n; the negation and the whole-array read may be spelt any way (engine/astq.negated)
+    e, halves = None, set()
+    for st_ in walk_noscope(fn):
+        if isinstance(st_, ast.Assign) and len(st_.targets) == 1:
+            neg = Q.negated(st_.value)
+            if neg is None:
+                continue
+            m1 = Q.match("self.res[:$s.dae.n]", st_.targets[0])
+            m2 = Q.match("self.res[$s.dae.n:]", st_.targets[0])
+            if m1 and Q.match("$s.dae.f", neg, m1):
+                e = e or m1
+                halves.add("f")
+            if m2 and Q.match("$s.dae.g", neg, m2):
+                halves.add("g")
+    ok = e is not None and halves == {"f", "g"}
     ctx.check(ok, "C01.linear", "PFlow.nr_step/rhs", "rhs = [-f; -g]", "right-hand side is not [-f; -g] split at dae.n", g.W())
     ok = e is not None and Q.has("self.A = sparse([[$s.dae.fx, $s.dae.gx], [$s.dae.fy, $s.dae.gy]])", fn, e)
     ctx.check(ok, "C01.linear", "PFlow.nr_step/matrix", "A = [[fx, fy],[gx, gy]] (kvxopt block columns)",
